@@ -258,6 +258,7 @@ static void other_classes(vf::Ctx& ctx, int n)
 }
 
 // wrappers that require a square matrix: every shape up to 4x4
+template <class X> struct TypeTag { using type = X; };
 template <class Op, class M> static void shape_check(vf::Ctx& ctx, const char* name, bool sparse_no_check = false)
 {
     for (int rr = 1; rr <= 4; rr++)
@@ -298,18 +299,31 @@ static void wrapper_shapes(vf::Ctx& ctx)
     // general product wrappers accept rectangular input by design (used by the SVD solver): only "no wrong exception type"
     shape_check<Spectra::DenseGenMatProd<T>, MD>(ctx, "DenseGenMatProd", true);
     shape_check<Spectra::SparseGenMatProd<T>, MS>(ctx, "SparseGenMatProd", true);
-    // SymShiftInvert: A and B square and of the same size
-    for (int a = 1; a <= 4; a++) for (int b = 1; b <= 4; b++) for (int c = 1; c <= 4; c++)
-    {
-        MD A(a, b), B(c, c);
-        A.setZero(); B.setZero();
-        std::string other;
-        const int out = classify([&]() { Spectra::SymShiftInvert<T, Eigen::Dense, Eigen::Dense> op(A, B); }, other);
-        const bool valid = a == b && c == a;
-        ctx.count("wrapper_constructor_calls");
-        if (!valid && out != 1) ctx.violation(std::string("SymShiftInvert") + (out == 0 ? "/mismatched-shapes-accepted" : "/mismatched-shapes-wrong-exception-type"), vf::J().kv("A", std::to_string(a) + "x" + std::to_string(b)).kv("B", std::to_string(c) + "x" + std::to_string(c)).str());
-        if (valid && out != 0) ctx.violation("SymShiftInvert/valid-shapes-rejected", "{}");
-    }
+    // SymShiftInvert: A and B square and of the same size - every pair of shapes up to 4x4, every dense/sparse pairing
+    auto ssi_pairs = [&](auto tagA, auto tagB, const char* nm) {
+        using MA = typename decltype(tagA)::type;
+        using MB = typename decltype(tagB)::type;
+        using KA = typename std::conditional<std::is_same<MA, MD>::value, Eigen::Dense, Eigen::Sparse>::type;
+        using KB = typename std::conditional<std::is_same<MB, MD>::value, Eigen::Dense, Eigen::Sparse>::type;
+        for (int a = 1; a <= 4; a++) for (int b = 1; b <= 4; b++) for (int c = 1; c <= 4; c++) for (int d = 1; d <= 4; d++)
+        {
+            MA A(a, b);
+            MB B(c, d);
+            A.setZero(); B.setZero();
+            std::string other;
+            const int out = classify([&]() { Spectra::SymShiftInvert<T, KA, KB> op(A, B); }, other);
+            const bool valid = a == b && c == d && c == a;
+            ctx.count("wrapper_constructor_calls");
+            if (!valid && out != 1)
+                ctx.violation(std::string("SymShiftInvert<") + nm + ">" + (out == 0 ? "/mismatched-shapes-accepted" : "/mismatched-shapes-wrong-exception-type"),
+                              vf::J().kv("A", std::to_string(a) + "x" + std::to_string(b)).kv("B", std::to_string(c) + "x" + std::to_string(d)).str());
+            if (valid && out != 0) ctx.violation(std::string("SymShiftInvert<") + nm + ">/valid-shapes-rejected", vf::J().kv("n", a).str());
+        }
+    };
+    ssi_pairs(TypeTag<MD>(), TypeTag<MD>(), "Dense,Dense");
+    ssi_pairs(TypeTag<MD>(), TypeTag<MS>(), "Dense,Sparse");
+    ssi_pairs(TypeTag<MS>(), TypeTag<MD>(), "Sparse,Dense");
+    ssi_pairs(TypeTag<MS>(), TypeTag<MS>(), "Sparse,Sparse");
     ctx.count("evals");
 }
 #endif
